@@ -203,7 +203,7 @@ inductive LexErr where
 
 /-- Places where `consume_name` indexes a vector or subtracts. -/
 inductive PanicSite where
-  | itemPositions0      -- lexer.rs:644 `consumed_positions[0]`
+  | itemPositions0      -- lexer.rs:686 `consumed_positions[0]`
   | tillInIndexMinus1   -- lexer.rs:658 `index - 1` with `index = 0` (`usize` underflow)
   | tillInPositions     -- lexer.rs:658 `consumed_positions[index - 1]`
   | prefixSlice         -- lexer.rs:669 `&parts[..part_count]`
@@ -267,13 +267,27 @@ def bufCell (inp : List Nat) (pos off : Nat) : Nat :=
 def readBuf (inp : List Nat) (pos : Nat) : List Nat :=
   (List.range 12).map (bufCell inp pos)
 
-/-- `is_next_character` (lexer.rs:956) on the rest of the input. -/
-def nextCharIn (chars : List Nat) : List Nat → Bool
-  | [] => false
-  | ch :: s => if chars.contains ch then true else if !isWhitespace ch then false else nextCharIn chars s
+/-- The loop of `is_next_character` (lexer.rs:966-980) from the absolute position `p`: a comment
+is jumped over (`comment_end`, lexer.rs:984 — the same end as `consume_comment` finds: a line
+comment ends before the line feed, an unterminated one at the end of input), white space is
+stepped over, any other character decides.  At most `fuel` rounds; every round moves `p`
+forward, so the budget `len − p + 1` of `isNextCharacter` is never exhausted
+(`nextCharLoop_fuel` in `Lemmas/LexerNextChar.lean`). -/
+def nextCharLoop (inp : List Nat) (chars : List Nat) : Nat → Nat → Bool
+  | 0, _ => false
+  | fuel + 1, p =>
+    match inp[p]? with
+    | none => false
+    | some ch =>
+      if isCommentStart inp p then nextCharLoop inp chars fuel (consumeComment inp p)
+      else if chars.contains ch then true
+      else if !isWhitespace ch then false
+      else nextCharLoop inp chars fuel (p + 1)
 
+/-- `is_next_character` (lexer.rs:965): is the next character after white space and comments
+one of `chars`? -/
 def isNextCharacter (inp : List Nat) (pos : Nat) (chars : List Nat) (off : Nat) : Bool :=
-  nextCharIn chars (inp.drop (pos + off))
+  nextCharLoop inp chars (inp.length - (pos + off) + 1) (pos + off)
 
 /-- `consume_digits` (lexer.rs:548): the digits and the new position. -/
 def consumeDigits (inp : List Nat) (pos : Nat) : List Nat × Nat :=
@@ -376,8 +390,11 @@ structure NameSt where
 
 def isNextNamePartChar (inp : List Nat) (pos : Nat) : Bool :=
   match inp[pos + 1]? with | some ch => isNamePartChar ch | none => false
+/-- `is_next_additional_name_symbol` (lexer.rs:900): the `/` that opens a comment is not one. -/
 def isNextAdditionalNameSymbol (inp : List Nat) (pos : Nat) : Bool :=
-  match inp[pos + 1]? with | some ch => isAdditionalNameSymbol ch | none => false
+  match inp[pos + 1]? with
+  | some ch => isAdditionalNameSymbol ch && !isCommentStart inp (pos + 1)
+  | none => false
 def isNextWhitespace (inp : List Nat) (pos : Nat) : Bool :=
   match inp[pos + 1]? with | some ch => isWhitespace ch | none => false
 
@@ -493,54 +510,65 @@ def nmTime : List Nat := [116, 105, 109, 101]
 
 def nameTok (tt : TT) (parts : List (List Nat)) : Token := ⟨tt, .name (nameNew parts)⟩
 
-/-- The part of `consume_name` after the loop (lexer.rs:636-718). `st` is what the part
-collector left: parts, consumed positions and the cursor. -/
+/-- The part of `consume_name` after the loop (lexer.rs:643-729). `st` is what the part
+collector left: parts, consumed positions and the cursor.  Order of the decisions: the
+`till_in` tweak, the longest prefix that is a key of the scope, the `item` tweak, the built-in
+type names, the temporal function names. -/
 def finishName (l : Lx) (st : NameSt) : Out (Token × Lx) :=
-  -- :636 tweak with the name `item`
-  if st.parts.head? == some kwItem then
-    match st.positions[0]? with
-    | none => .panic .itemPositions0
-    | some p => .ok (⟨.name, .name kwItem⟩, { l with pos := p + 1 })
-  else
-    -- :647 tweak with the name before `in`
-    -- :649 `parts.iter().position(|value| value == "in").filter(|index| *index > 0)`
-    let tillInHit := if l.tillIn then (positionOfIn st.parts).filter (fun i => 0 < i) else none
-    match tillInHit with
-    | some index =>
-      if index = 0 then .panic .tillInIndexMinus1
+  -- :646 tweak with the name before `in`
+  -- :651 `parts.iter().position(|value| value == "in").filter(|index| *index > 0)`
+  let tillInHit := if l.tillIn then (positionOfIn st.parts).filter (fun i => 0 < i) else none
+  match tillInHit with
+  | some index =>
+    if index = 0 then .panic .tillInIndexMinus1
+    else
+      match st.positions[index - 1]? with
+      | none => .panic .tillInPositions
+      | some p => .ok (nameTok .name (st.parts.take index), { l with pos := p + 1, tillIn := false })
+  | none =>
+    -- :660 longest prefix that is a key of the scope
+    match prefixLoop l.keys st.parts st.positions st.parts.length with
+    | .panic s => .panic s
+    | .error e p => .error e p
+    | .fuelOut => .fuelOut
+    | .ok (some (sub, p)) => .ok (nameTok .name sub, { l with pos := p })
+    | .ok none =>
+      -- :680 tweak with the name `item` (only when no bound name begins here)
+      if st.parts.head? == some kwItem then
+        match st.positions[0]? with
+        | none => .panic .itemPositions0
+        | some p => .ok (⟨.name, .name kwItem⟩, { l with pos := p + 1 })
       else
-        match st.positions[index - 1]? with
-        | none => .panic .tillInPositions
-        | some p => .ok (nameTok .name (st.parts.take index), { l with pos := p + 1, tillIn := false })
-    | none =>
-      -- :659 longest prefix that is a key of the scope
-      match prefixLoop l.keys st.parts st.positions st.parts.length with
-      | .panic s => .panic s
-      | .error e p => .error e p
-      | .fuelOut => .fuelOut
-      | .ok (some (sub, p)) => .ok (nameTok .name sub, { l with pos := p })
-      | .ok none =>
         let l := { l with pos := st.pos }
         let name := nameNew st.parts
-        -- :683 built-in type names
+        -- :694 built-in type names
         if l.typeName && builtInTypeNames.contains name then
           .ok (⟨.builtInTypeName, .name name⟩, { l with typeName := false })
-        -- :699
+        -- :715
         else if name == nmDateAndTime || name == nmDuration then
           .ok (⟨.nameDateTime, .name name⟩, l)
-        -- :702
+        -- :718
         else if name == nmDate || name == nmTime then
           if isNextCharacter l.input l.pos [58] 0 then .ok (⟨.name, .name name⟩, l)
           else .ok (⟨.nameDateTime, .name name⟩, l)
         else .ok (⟨.name, .name name⟩, l)
 
-/-- `consume_name` (lexer.rs:562). -/
+/-- `consume_name` (lexer.rs:569). -/
 def consumeName (l : Lx) : Out (Token × Lx) :=
   match collectParts l.input l.pos with
   | .error e p => .error e p
   | .panic s => .panic s
   | .fuelOut => .fuelOut
   | .ok st => finishName l st
+
+/-- The name arm of `read_next_token` (lexer.rs:418-424): `consume_name`, after which a type
+name is no longer expected (`type_name` is for the first name after the request only). -/
+def nameArm (l : Lx) : Out (Token × Lx) :=
+  match consumeName l with
+  | .ok (t, l') => .ok (t, { l' with typeName := false })
+  | .error e p => .error e p
+  | .panic s => .panic s
+  | .fuelOut => .fuelOut
 
 /-! ## `read_next_token` (lexer.rs:209-420) -/
 
@@ -583,7 +611,7 @@ def readNextToken (l : Lx) : Out (Token × Lx) :=
   else if kw b [110, 111, 116] && l.unaryTests && isKeywordNotSeparator (bc 3) then
     advance l pos 3 .not                                                                             -- "not"
   else if kw b [105, 102, 32] then advance l pos 2 .if_                                               -- "if "
-  else if kw b [105, 110, 32] then advance l pos 2 .in_                                               -- "in "
+  else if kw b [105, 110, 32] then advance { l with tillIn := false } pos 2 .in_                      -- "in " (:299 clears till_in)
   else if kw b [111, 102, 32] then advance l pos 2 .of_                                               -- "of "
   else if kw b [111, 114, 32] then advance l pos 2 .or_                                               -- "or "
   else if kw b [46, 46] then advance l pos 2 .ellipsis                                                -- ".."
@@ -626,7 +654,7 @@ def readNextToken (l : Lx) : Out (Token × Lx) :=
       let (after, p2) := consumeDigits inp (p + 1)
       .ok (⟨.numeric, .numeric before after⟩, { l with pos := p2 })
     else .ok (⟨.numeric, .numeric before []⟩, { l with pos := p })
-  else if isNameStartChar (bc 0) then consumeName l
+  else if isNameStartChar (bc 0) then nameArm l
   else if b.all (fun c => c == 32) then advance l pos 0 .yyEof
   else advance l pos 0 .yyUndef
 
